@@ -12,7 +12,10 @@
 (*   u      : old, new, rsn     U's Transfer.state notification            *)
 (*   offset : val               8 bytes D -> U seen on the file connection *)
 (*   fault  : kind              reset | eof (file connection cut),         *)
-(*                              lose_request | lose_reply                  *)
+(*                              lose_request | lose_reply, ufail (the      *)
+(*                              uploader's end breaks), hold_upfailed /    *)
+(*                              release_upfailed (PeerUploadFailed held    *)
+(*                              back in the network / delivered)           *)
 (*   scr    : act, n            act of a scripted uploader: junk | stall   *)
 (*   final  : expect, bound,    quiescent end of the run; pd / pu = bytes  *)
 (*            pd, pu            reported by the last progress snapshots    *)
@@ -61,7 +64,7 @@ TInit ==
        /\ sizeD = IF r.st = "QUEUED" THEN -1 ELSE r.size
   /\ rsnD = FALSE /\ remQ = FALSE /\ pcD = "idle" /\ expTk = -1 /\ recvD = 0 /\ needD = 0
   /\ stU = "NONE" /\ rsnU = FALSE /\ pcU = "idle" /\ tkt = 0 /\ offU = 0 /\ sentU = 0
-  /\ chDU = <<>> /\ chUD = <<>> /\ fc = NoFc /\ stall = FALSE /\ faults = 0
+  /\ chDU = <<>> /\ chUD = <<>> /\ fc = NoFc /\ stall = FALSE /\ faults = 0 /\ heldUF = 0
   /\ marks = {} /\ nq = 0
 
 IsEv(e) == l <= Len(T) /\ Rec.ev = e
@@ -77,7 +80,9 @@ Agrees ==
   /\ (RealD /\ S.len >= 0) =>
         (BLen(local') = S.len /\ IsPrefix(local') = S.pre /\ IsSrc(local') = S.iden)
   /\ (S.ust = "UPLOADING") => sentU' = S.sent
-  /\ (fc'.st = "open") = (S.fcs = "open")
+  \* "open" = the link is alive and the downloader's end has not closed it (the uploader's own close does
+  \* not count: "the peer closed the connection" is observed at the peer's end of the recorded link)
+  /\ (fc'.st \in {"open", "ubroken", "closedU"}) = (S.fcs = "open")
 
 UOld == IF stU = "NONE" THEN "VIRGIN" ELSE stU
 
@@ -107,7 +112,7 @@ TU ==
      \/ /\ Rec.old = "UPLOADING" /\ Rec.new = "COMPLETE" /\ UVerdict /\ (RealU => S.sentok)
      \/ /\ Rec.old = "UPLOADING" /\ Rec.new = "FAILED"
         /\ \/ UVerdict
-           \/ fc.st = "reset" /\ USend(1)
+           \/ fc.st \in {"reset", "ubroken"} /\ USend(1)
            \/ ScrUCloseEarly
            \/ ScrUStallEnd
   /\ stU' = Rec.new
@@ -131,6 +136,9 @@ TFault ==
               /\ Cut(Rec.kind, Kept, kt, ko)
      \/ Rec.kind = "lose_request" /\ LoseRequest
      \/ Rec.kind = "lose_reply" /\ LoseReply
+     \/ Rec.kind = "ufail" /\ BreakUSide
+     \/ Rec.kind = "hold_upfailed" /\ HoldUpFailed
+     \/ Rec.kind = "release_upfailed" /\ ReleaseUpFailed
   /\ Agrees /\ Consume
 
 TScr ==
@@ -167,7 +175,7 @@ Silent ==
         \/ URecvQueue /\ stU' = stU
         \/ URecvReply /\ stU' = stU
         \/ UOpenFileConn
-        \/ pcU = "send" /\ fc.st # "reset" /\ S.sent > sentU /\ USend(Min(S.sent - sentU, Remaining))
+        \/ pcU = "send" /\ fc.st \notin {"reset", "ubroken"} /\ S.sent > sentU /\ USend(Min(S.sent - sentU, Remaining))
         \/ S.sent = sentU /\ USendDone
         \/ LET n == Min(BLen(fc.fl), Rec.nlen - LocalLen) IN n >= 1 /\ DRecv(n)
         \/ DSeeEof
@@ -189,7 +197,7 @@ TSpec == TInit /\ [][TNext]_tvars
 
 \* the action properties of FileTransfer as constraints (a path that breaks one is cut)
 UCompleteSentAllC ==
-  (stU # "COMPLETE" /\ stU' = "COMPLETE") => (offU <= size /\ sentU = size - offU /\ fc.st # "open")
+  (stU # "COMPLETE" /\ stU' = "COMPLETE") => (offU <= size /\ sentU = size - offU /\ PeerGone)
 ResumeAtLocalSizeC == (RealD /\ fc'.off >= 0 /\ fc'.off # fc.off) => fc'.off = LocalLen
 NeverShrinksC == BLen(local') >= BLen(local) /\ Take(local', BLen(local)) = local
 BreakOutcomeC ==
